@@ -161,7 +161,7 @@ PROPS = {
              "ISO 7.4 encoding of the input. distinct = (script shape, alignment) / (option shape, reported fields, length class).",
         trusted=COMMON_TRUST),
     "C07": dict(
-        module="FastQr.Props.C07", level="proof", key=key_unit,
+        module="FastQr.Props.C07", more_modules=["FastQr.Props.C07Emitted"], level="proof", key=key_unit,
         rule="cases: `ustructure`: the EC codewords as EMITTED by polynomials::structure into the interleaved sequence, for arbitrary data buffers of the (version, level) layouts (spec verdict: every Table 9 block's EC codewords = GF(256) remainder by prod(x - alpha^i)); and real polynomials::division through the hook on every (generator, block length) pair in use: unit vectors "
              "(quick: 10 positions x 5 values; thorough: every position, all 255 values for short blocks), zeros-heavy, "
              "all-zero, all-FF, random; get_polynomial on all 160 (level, version) pairs. distinct = (generator degree, block "
